@@ -480,4 +480,5 @@ pub fn run(ctx: &mut Ctx) {
             }
         }
     }
+    crate::spaces::depth_probes(ctx);
 }
